@@ -192,6 +192,22 @@ func runC04(c *Ctx) {
 			return
 		}
 		c.S.Count("probe.issued_by_real_download")
+		if c.T.Bool(1, 3) {
+			// restart between issuance and use, with another setting of the verification switch
+			// (an administrator turns it on or off): what counts at use is the switch as it is now
+			// and the address the token recorded when it was issued
+			c.W.GW.Stop()
+			verify = (verify + 1 + c.T.Choose(2)) % 3
+			tw.Cfg.VerifyClientIP = []*bool{nil, env.Bool(true), env.Bool(false)}[verify]
+			g2 := c.W.Boot(tw.Cfg)
+			if g2.Exited || g2.Server == nil {
+				c.Infra("gateway did not restart: %s", g2.ExitLine)
+				return
+			}
+			expectAllowed = verify == 2 || addrA == addrB
+			issued += fmt.Sprintf(" then-restart-with-verifyclientip=%s", []string{"default", "true", "false"}[verify])
+			c.S.Count("fault.gateway.restart_with_other_verify_setting")
+		}
 	}
 	cc := PChannel(p.AllowedHost, HostAllowed)
 	if !expectAllowed {
